@@ -114,7 +114,8 @@ def check_program(rec, prog, tag, path):
         byuse[k].add(site)
     joined = 0
     for k, sites in byuse.items():
-        ln, col, ident, uscope = prog.uses[k]
+        ln, col, ident, uscope = prog.uses[k][:4]
+        use_tag = prog.uses[k][4] if len(prog.uses[k]) > 4 else None
         w = {'program': tag, 'use': [ln, col, ident], 'use_scope': uscope.kind, 'text': src}
         ok, defs = apimon.call(rec, 'goto', s.goto, ln, col, witness=w)
         if not ok:
@@ -133,8 +134,11 @@ def check_program(rec, prog, tag, path):
                 want_owners.add(scopes.owner(v['scope'], v['ident'], root))
         via_nonlocal = any(site != 'builtin' and prog.sites[site]['scope'].decl.get(ident) == 'nonlocal'
                            for site in sites)
+        m9 = bool(use_tag and use_tag.endswith('_default') and uscope.kind == 'class')
         if not defs:
-            rec.violate('c03:M7_nonlocal_write_from_nested_function_not_seen' if via_nonlocal else 'c03:no_landing', 'goto on executed use %r at %s:%s returns nothing'
+            rec.violate('c03:M7_nonlocal_write_from_nested_function_not_seen' if via_nonlocal else
+                        'c03:M9_parameter_default_in_class_body_not_resolved_in_class_scope' if m9 else
+                        'c03:no_landing', 'goto on executed use %r at %s:%s returns nothing'
                         % (ident, ln, col), **w)
             continue
         landed = []
@@ -178,6 +182,12 @@ def check_program(rec, prog, tag, path):
                        '%s scope at %s' % (uscope.kind, ln, col,
                                            sorted(getattr(o, 'kind', o) for o in want_owners),
                                            getattr(got_owner, 'kind', got_owner), (d.line, d.column))
+                if mech is None and use_tag == 'lambda_default' and got_owner is uscope and d.line > ln:
+                    rec.violate('c03:M8_lambda_default_resolved_without_position_limit', desc, **w)
+                    continue
+                if mech is None and m9 and got_owner is not uscope:
+                    rec.violate('c03:M9_parameter_default_in_class_body_not_resolved_in_class_scope', desc, **w)
+                    continue
                 if mech is None and via_nonlocal:
                     mech = 'M7_nonlocal_write_from_nested_function_not_seen'
                     rec.violate('c03:' + mech, desc, **w)
@@ -196,7 +206,8 @@ def check_program(rec, prog, tag, path):
                         and v['how'] in ('assign', 'for', 'with', 'walrus', 'import') and not foreign:
                     rec.ev('c03:straight_line_exact_checked')
                     if landed and set(landed) != {(v['line'], v['col'])}:
-                        rec.violate('c03:straight_line_not_exact', 'straight-line use at %s:%s read the '
+                        rec.violate('c03:M8_lambda_default_resolved_without_position_limit'
+                                    if use_tag == 'lambda_default' else 'c03:straight_line_not_exact', 'straight-line use at %s:%s read the '
                                     'value of the binding at %s:%s, goto returns %s'
                                     % (ln, col, v['line'], v['col'], sorted(landed)), **w)
     return joined
